@@ -127,6 +127,7 @@ func (s *SUT) vanish(where, sid string) {
 		// the server is closed while this handshake is still pending
 		s.closedInCallback = true
 		s.w.Count("server-closed-in-" + where)
+		s.h.Add(-1, "server-close-called", nil, "", "inside the "+where+" callback")
 		_ = s.server.Close()
 	}
 	if s.Conf.VanishIn != where {
@@ -679,6 +680,8 @@ func ScriptRun(w *World, p *RawPeer, steps []Step) {
 					return firstID
 				}
 				return nil
+			case 4:
+				return p.ForceID // an id this peer learnt elsewhere (another live session's, say)
 			}
 			if sid == "" {
 				return nil
